@@ -169,7 +169,7 @@ class CaseWriter:
         base["g"] = {"nd": nd, "nx": g["nx"], "dx": [float(x) for x in g["dx"]], "x0": [float(x) for x in g["x0"]],
                      "ang": ang, "codes": g["ang"]}
         base["R"] = R
-        base["rotated0"] = int(any(a != 0 for a in g["ang"]) and nd > 1)
+        base["rotated0"] = int(any(abs(R[i][j] - (1.0 if i == j else 0.0)) > 1e-12 for i in range(nd) for j in range(nd)))
         base["conj"] = 0
         base["zero"] = 0
         base["one"] = 1
@@ -478,7 +478,9 @@ def run(tier):
     ck.cov["rule"] = ("every case of GridGeom.tla within the constants of the tier (all grids x all nodes x all off-border "
                       "quarter-lattice points x all derived grids), expected values computed exactly by TLC; each case executed "
                       "on the real library as emitted and conjugated by a seeded arbitrary rotation of the whole scene; "
-                      "integers compared exactly, coordinates to 1e-9 relative")
+                      "integers compared exactly, coordinates to 1e-9 relative. evaluations = individual values compared; "
+                      "all (grid, rotation of the scene, case) triples are distinct by construction; distinct_nontrivial = "
+                      "those whose grid rotation is not the identity")
     ck.assumptions += [
         "rotation convention = documentation of DbGrid::reset (angles around Oz, Oy', Ox'', counter-clockwise, origin invariant)",
         "query points are at least a quarter of a mesh away from every cell border (the property excludes border points)",
